@@ -175,3 +175,16 @@ reg("C39", "tsx", "Complete reachability analysis of OneHotRoundRobin (count 1-5
     "grant among the requesters, no requester waits count cycles.",
     "explicit-state BFS of the real elaborated circuit x wait-counter monitor",
     note=E1_NOTE + " 'grants none' is read as valid low; RoundRobin's registered outputs are compared across the clock edge.")
+
+reg("C18", "tsx", "ConnectTrans, CrossbarConnectTrans, MethodMap, MethodFilter (use_condition x default), MethodProduct, MethodTryProduct "
+    "(1-3 targets, default and custom combiners), NonexclusiveWrapper (two callers) and Collector (1-3 targets, complete BFS over its "
+    "Forwarder) between real AdapterTrans callers and real Adapter targets: every readiness pattern x argument x returned value, each "
+    "clause of the statement as an equation on the run/ready/data pins.",
+    "exhaustive input enumeration (complete BFS for Collector) on the real elaborated circuit against per-class reference equations")
+reg("C29", "tsx", "Complete reachability analysis of StreamSource (free o.ready), StreamSink (read + two peek callers, free i.valid/"
+    "payload) and StreamModuleWrapper around two plain-Amaranth stream modules, against queue monitors: valid iff an item waits, payload "
+    "stable while stalled, every item transferred exactly once in order, read.ready iff i.valid, i.ready iff read runs.",
+    "explicit-state BFS of the real elaborated circuit against queue monitors")
+reg("C30", "tsx", "Complete reachability analysis of InputSampler and OutputBuffer for all eight (edge, polarity, synchronize) settings, "
+    "every (trigger, data, enable) valuation in every state, against a model holding the last two trigger levels.",
+    "explicit-state BFS of the real elaborated circuit against a two-cycle trigger-history model")
